@@ -204,6 +204,17 @@ pub fn check(rep: &mut Report) {
                     }
                 }
             }
+            // sums and differences of tiny magnitudes (far below 1 ulp of 1.0, far above the subnormals)
+            if defs.units[*a].dim == defs.units[*b].dim {
+                for (x, y) in [("3e-17", "1e-17"), ("5e-20", "2e-17")] {
+                    for op in ['+', '-'] {
+                        let e = UExpr::Bin(op, Box::new(UExpr::leaf(x, None, a, a)), Box::new(UExpr::leaf(y, None, b, b)));
+                        if let Some(expect) = e.eval(&defs) {
+                            cases.push(Case { src: e.render(), expect, nontrivial: true });
+                        }
+                    }
+                }
+            }
         }
     }
     let l2 = cases.len() - l1;
@@ -288,7 +299,7 @@ pub fn check(rep: &mut Report) {
     rep.set("L1_identifiers", json!(l1));
     rep.set("L2_pair_expressions", json!(l2));
     rep.set("L3_trees", json!(l3));
-    rep.rule = "L1: every accepted (alias x prefix x spelling) identifier alone; L2: every ordered pair of units under * and / (all units^2) and + - (same-dimension pairs) x magnitude pairs; L3: every expression tree of depth <= 2 (thorough: + depth-3 op(depth1,depth1)) over a collision alphabet of units/prefixes with + - * / ^{2,-1,1/2,3}; each evaluated by the interpreter (raw value through the hook), converted to base units by the implementation and compared with a reference built from the units' direct definitions; non-trivial = cases involving a prefix, two different units or a tree".into();
+    rep.rule = "L1: every accepted (alias x prefix x spelling) identifier alone; L2: every ordered pair of units under * and / (all units^2) and + - (same-dimension pairs) x magnitude pairs, + - also with two pairs of tiny magnitudes (1e-17 … 1e-20); L3: every expression tree of depth <= 2 (thorough: + depth-3 op(depth1,depth1)) over a collision alphabet of units/prefixes with + - * / ^{2,-1,1/2,3}; each evaluated by the interpreter (raw value through the hook), converted to base units by the implementation and compared with a reference built from the units' direct definitions; non-trivial = cases involving a prefix, two different units or a tree".into();
     rep.assumptions = vec![
         "reference = UnitDefs (direct definitions read from the VM constants; own recursion, own prefix table, own power function), relative tolerance 1e-9".into(),
         "sums/differences that cancel to less than 1e-6 of their operands are compared in dimension only".into(),
